@@ -64,7 +64,7 @@ def run(repo: Repo, rep: Report, tier: str) -> None:
             continue
         mod = repo.modules[mn]
         for fn in mod.functions.values():
-            for loop, kvar, mtxt in _items_loops(fn):
+            for li, (loop, kvar, mtxt) in enumerate(_items_loops(fn)):
                 # (a) key passed raw to a type-strict parser parameter
                 for c in calls_in(loop):
                     name = c.func.id if isinstance(c.func, ast.Name) else (c.func.attr if isinstance(c.func, ast.Attribute) else None)
@@ -76,19 +76,19 @@ def run(repo: Repo, rep: Report, tier: str) -> None:
                                 if not uses_key:
                                     continue
                                 n_sites += 1
-                                sub = f"{mod.relpath}:{fn.qualname} key `{kvar}` of `{mtxt}.items()` -> {name}(arg {pos})"
+                                sub = f"{mod.relpath}:{fn.qualname} mapping key (items-loop #{li + 1}) -> {name}(arg {pos})"
                                 if isinstance(a, ast.Call) and dotted(a.func) == "str":
                                     rep.ok("R19.1", sub, "normalised with str() before the type-strict parser sees it", fn.loc(c))
                                 else:
-                                    rep.violation("R19.1", sub, f"{fn.fq}|raw-key|{kvar}|{name}",
+                                    rep.violation("R19.1", sub, f"{fn.fq}|raw-key|{name}|arg{pos}",
                                                   f"the mapping key is passed as `{norm(a)}` to {name}, which raises unless it is a str: a YAML rendering "
                                                   "with unquoted numeric keys is rejected where the JSON rendering is accepted", fn.loc(c))
                 # (b) key skipped/raised locally on its Python type
                 for n in own_nodes(loop):
                     if isinstance(n, ast.If) and f"isinstance({kvar}, str)" in norm(n.test) and any(isinstance(s, (ast.Continue, ast.Raise)) for s in n.body):
                         n_sites += 1
-                        sub = f"{mod.relpath}:{fn.qualname} key `{kvar}` of `{mtxt}.items()` type test"
-                        rep.violation("R19.1", sub, f"{fn.fq}|key-type-test|{kvar}",
+                        sub = f"{mod.relpath}:{fn.qualname} mapping key (items-loop #{li + 1}) type test"
+                        rep.violation("R19.1", sub, f"{fn.fq}|key-type-test|loop{li + 1}",
                                       f"entries whose key is not a Python str are {'skipped' if any(isinstance(s, ast.Continue) for s in n.body) else 'rejected'} "
                                       f"(`{norm(n.test)[:60]}`): a YAML key such as `123:` or `yes:` drops the entry that the JSON rendering \"123\" keeps", fn.loc(n))
     rep.count("R19.1:key_typing_sites", n_sites)
@@ -109,11 +109,17 @@ def run(repo: Repo, rep: Report, tier: str) -> None:
                       f"path-level and operation-level parameters are parsed with different naming context {[sorted(kv.items()) for kv in kwvals]}: the name "
                       "(and, by first-registration-wins, the content) of a promoted inline enum/object depends on the order of `paths`", po.loc(pcs[0]))
     # the same for parse_response / parse_request_body: the promo context is the operation id
+    from sa.match import Locals
+
+    OL = Locals(po.node)
+    opid_vars = {name for name, ds in OL.defs.items() for kind, v, _ in ds if v is not None and any(
+        isinstance(x, ast.Constant) and x.value == "operationId" for x in ast.walk(v))}
+    rep.require(bool(opid_vars), "R19.2: the variable holding the operation id (read from 'operationId') was not found in parse_operations")
     for callee in ("parse_response", "parse_request_body"):
         for c in [c for c in calls_in(po.node) if dotted(c.func) == callee]:
-            vals = [norm(a) for a in c.args] + [norm(k.value) for k in c.keywords]
+            vals = {OL.root(x.id) for a in list(c.args) + [k.value for k in c.keywords] for x in ast.walk(a) if isinstance(x, ast.Name)}
             sub = f"{po.module.relpath}:parse_operations `{callee}(...)` naming context"
-            if "operation_id" in vals:
+            if vals & opid_vars or any(OL.root(v) in opid_vars for v in vals):
                 rep.ok("R19.2", sub, "inline schemas are promoted under the operation id", po.loc(c))
             else:
                 rep.violation("R19.2", sub, f"{po.fq}|{callee}-context", f"{callee} is not given the operation id as naming context", po.loc(c))
